@@ -289,6 +289,228 @@ func pathMatch(in, out string) bool {
 	return i == len(in) && j == len(out)
 }
 
+// ---------------------------------------------------------------- well-formedness and input integrity
+
+// wellFormed checks that the bytes of v decode exactly according to v's own
+// type: records have one element per field, unions are a (tag, value) pair
+// with a valid tag, maps have key/value pairs, fixed-width primitives have
+// their width (Value.Validate), and nothing panics while walking.  It returns
+// "" or a description.
+func wellFormed(v zed.Value) (msg string) {
+	defer func() {
+		if r := recover(); r != nil {
+			msg = fmt.Sprintf("walking the value panics: %v", r)
+		}
+	}()
+	if v.IsNull() {
+		return ""
+	}
+	if m := strictWalk(v.Type(), v.Bytes(), ""); m != "" {
+		return m
+	}
+	if err := v.Validate(); err != nil {
+		s, _, _ := strings.Cut(err.Error(), "\n")
+		return "Value.Validate: " + s
+	}
+	return ""
+}
+
+func strictWalk(t zed.Type, b zcode.Bytes, path string) string {
+	if b == nil {
+		return ""
+	}
+	switch t := t.(type) {
+	case *zed.TypeNamed:
+		return strictWalk(t.Type, b, path)
+	case *zed.TypeRecord:
+		it := b.Iter()
+		for _, f := range t.Fields {
+			if it.Done() {
+				return fmt.Sprintf("at %q: record body has fewer elements than the %d fields of %s", path, len(t.Fields), zson.FormatType(t))
+			}
+			if m := strictWalk(f.Type, it.Next(), path+"."+f.Name); m != "" {
+				return m
+			}
+		}
+		if !it.Done() {
+			return fmt.Sprintf("at %q: record body has more elements than the %d fields of %s", path, len(t.Fields), zson.FormatType(t))
+		}
+	case *zed.TypeArray:
+		for it := b.Iter(); !it.Done(); {
+			if m := strictWalk(t.Type, it.Next(), path+"[]"); m != "" {
+				return m
+			}
+		}
+	case *zed.TypeSet:
+		for it := b.Iter(); !it.Done(); {
+			if m := strictWalk(t.Type, it.Next(), path+"[]"); m != "" {
+				return m
+			}
+		}
+	case *zed.TypeMap:
+		for it := b.Iter(); !it.Done(); {
+			if m := strictWalk(t.KeyType, it.Next(), path+"<k>"); m != "" {
+				return m
+			}
+			if it.Done() {
+				return fmt.Sprintf("at %q: map body has an odd number of elements", path)
+			}
+			if m := strictWalk(t.ValType, it.Next(), path+"<v>"); m != "" {
+				return m
+			}
+		}
+	case *zed.TypeUnion:
+		it := b.Iter()
+		if it.Done() {
+			return fmt.Sprintf("at %q: empty body for union %s", path, zson.FormatType(t))
+		}
+		tb := it.Next()
+		if tb == nil || it.Done() {
+			return fmt.Sprintf("at %q: body of union %s is not a (tag, value) pair", path, zson.FormatType(t))
+		}
+		if len(tb) > 8 {
+			return fmt.Sprintf("at %q: union tag of %d bytes", path, len(tb))
+		}
+		tag := int(zed.DecodeInt(tb))
+		if tag < 0 || tag >= len(t.Types) {
+			return fmt.Sprintf("at %q: union tag %d out of range for %s", path, tag, zson.FormatType(t))
+		}
+		e := it.Next()
+		if !it.Done() {
+			return fmt.Sprintf("at %q: body of union %s has more than two elements", path, zson.FormatType(t))
+		}
+		return strictWalk(t.Types[tag], e, path)
+	case *zed.TypeError:
+		return strictWalk(t.Type, b, path+"!")
+	case *zed.TypeEnum:
+		if len(b) > 8 || zed.DecodeUint(b) >= uint64(len(t.Symbols)) {
+			return fmt.Sprintf("at %q: enum index out of range", path)
+		}
+	default:
+		switch id := t.ID(); {
+		case zed.IsInteger(id) || id == zed.IDDuration || id == zed.IDTime:
+			if len(b) > 8 {
+				return fmt.Sprintf("at %q: %d bytes for an integer of type %s", path, len(b), zson.FormatType(t))
+			}
+		case id == zed.IDType:
+			if _, err := zed.NewContext().LookupByValue(b); err != nil {
+				return fmt.Sprintf("at %q: undecodable type value: %v", path, err)
+			}
+		}
+	}
+	return ""
+}
+
+// inputSnapshot records, before the operator runs, what the operator must
+// not change: the structure of every input type (the types are interned in
+// the shared zed.Context, the operator only reads them) and the input bytes.
+type inputSnapshot struct {
+	typeValue []string // hex of zed.EncodeTypeValue(type): the full structure
+	body      []string
+}
+
+func snapshotInputs(vals []zed.Value) inputSnapshot {
+	var s inputSnapshot
+	for _, v := range vals {
+		s.typeValue = append(s.typeValue, hex.EncodeToString(zed.EncodeTypeValue(v.Type())))
+		if v.IsNull() {
+			s.body = append(s.body, "null")
+		} else {
+			s.body = append(s.body, hex.EncodeToString(v.Bytes()))
+		}
+	}
+	return s
+}
+
+// diff returns the index of the first input whose type structure or bytes
+// changed, or -1.
+func (s inputSnapshot) diff(vals []zed.Value) (idx int, what string) {
+	defer func() {
+		if r := recover(); r != nil {
+			idx, what = 0, fmt.Sprintf("re-encoding the input types panics: %v", r)
+		}
+	}()
+	now := snapshotInputs(vals)
+	for i := range vals {
+		if now.typeValue[i] != s.typeValue[i] {
+			t := "<undecodable>"
+			if typ, err := zed.NewContext().LookupByValue(mustHex(s.typeValue[i])); err == nil {
+				t = zson.FormatType(typ)
+			}
+			return i, fmt.Sprintf("the type of input %d was %s and is now %s", i, t, zson.FormatType(vals[i].Type()))
+		}
+		if now.body[i] != s.body[i] {
+			return i, fmt.Sprintf("the bytes of input %d changed", i)
+		}
+	}
+	return -1, ""
+}
+
+func mustHex(s string) []byte {
+	b, err := hex.DecodeString(s)
+	if err != nil {
+		panic(err)
+	}
+	return b
+}
+
+// outMode names how an output relates to its input, for the signature of a
+// uniformity / losslessness failure: the two error values the shaper is
+// known to produce, "lossless-other-type" for a well-formed output that has
+// all the leaves of its input but not the fused type, "other" for anything else.
+func outMode(in, out zed.Value) string {
+	if e, ok := zed.TypeUnder(out.Type()).(*zed.TypeError); ok && e.Type == zed.TypeString && !out.IsNull() && out.Type() != in.Type() {
+		msg := zed.DecodeString(out.Bytes())
+		switch {
+		case strings.HasPrefix(msg, "createStep: incompatible types "):
+			return "createstep-error"
+		case msg == "cannot yet use maps in shaping functions (issue #2894)":
+			return "map-error"
+		case strings.HasPrefix(msg, "cannot cast union ") && strings.Contains(msg, " due to "):
+			return "castunion-error" // shaperType on a union input one of whose members cannot be shaped
+		}
+	}
+	if losslessDiff(in, out) == "" {
+		return "lossless-other-type"
+	}
+	return "other"
+}
+
+// expectedMode says whether a failure of the given oracle on a value of the
+// given finding class shows exactly the symptom the open finding describes:
+//   - a union member widened by the merge (F-C20-1): the value comes out
+//     well-formed with all its leaves but not of the fused type, or as the
+//     error value of newStep ("createStep: incompatible types");
+//   - maps (F-C20-2): the value comes out as the shaper's map error (or the
+//     "cannot cast union" error wrapping it);
+//   - error values (F-C20-3): the value comes out unchanged.
+// Anything else on such a value (other leaves lost, another error, ...) gets
+// a signature of its own that no open finding matches.
+func expectedMode(oracle, class, mode string) bool {
+	switch {
+	case class == "plain":
+		return false
+	case class == "error-value":
+		return oracle == "uniform" && mode == "lossless-other-type"
+	case strings.Contains(class, "map-shaping"):
+		return mode == "map-error" || mode == "castunion-error"
+	default: // the two classes of F-C20-1
+		if mode == "createstep-error" || mode == "castunion-error" {
+			return true
+		}
+		return oracle == "uniform" && mode == "lossless-other-type"
+	}
+}
+
+// failSig is the signature of a uniformity/losslessness failure: the plain
+// "<oracle>:<class>" only for the symptom the class stands for.
+func failSig(oracle, class, mode string) string {
+	if expectedMode(oracle, class, mode) {
+		return oracle + ":" + class
+	}
+	return oracle + "-unexpected:" + class + ":" + mode
+}
+
 // malformedSets returns a description of the first set body in v that is not
 // in normal form (sorted by encoded element, no duplicates), or "".
 func malformedSets(t zed.Type, b zcode.Bytes) string {
